@@ -944,6 +944,71 @@ func (e *env) sorts(thorough bool) {
 	e.sortOne(tabSpec{"nnr", seqKV([]rt.Value{rt.IntValue(2), rt.StringValue("a"), rt.IntValue(1)}), nil}, "")
 	e.sortOne(tabSpec{"nnr", seqKV([]rt.Value{rt.IntValue(2), rt.BoolValue(true), rt.IntValue(1)}), nil}, "")
 	e.sortOne(tabSpec{"nnr", seqKV([]rt.Value{rt.IntValue(2), rt.BoolValue(true)}), nil}, "cmp:lt"[4:])
+	// structured inputs at the lengths where Go's sort.Sort (pdqsort) changes strategy — insertion sort up to 12,
+	// median-of-3 below 50 and ninther from 50, reverseRange on descending input, partialInsertionSort on
+	// nearly sorted input, partitionEqual on many duplicates, breakPatterns after an unbalanced partition and the
+	// heapsort fallback (reached by the inconsistent comparisons ne / true / le / ge from about 50 elements) —
+	// each with every comparison, so that a defect showing only through one strategy's Less/Swap pattern is met.
+	// (Which strategy each input reaches was measured once on an instrumented copy of zsortinterface.go.)
+	type pat struct {
+		name string
+		f    func(i, n int) int64
+	}
+	x := uint64(88172645463325252) ^ hlib.Seed()
+	pats := []pat{
+		{"asc", func(i, n int) int64 { return int64(i) }},
+		{"desc", func(i, n int) int64 { return int64(n - i) }},
+		{"equal", func(i, n int) int64 { return 7 }},
+		{"few", func(i, n int) int64 { return int64((i*7)%3) - 1 }},
+		{"organ", func(i, n int) int64 {
+			if i < n/2 {
+				return int64(i)
+			}
+			return int64(n - i)
+		}},
+		{"saw", func(i, n int) int64 { return int64(i % 5) }},
+		{"ascswap", func(i, n int) int64 {
+			if i == n/3 {
+				return int64(n)
+			}
+			return int64(i)
+		}},
+		{"push", func(i, n int) int64 {
+			if i == n-1 {
+				return -1
+			}
+			return int64(i)
+		}},
+		{"rand", func(i, n int) int64 {
+			x ^= x << 13
+			x ^= x >> 7
+			x ^= x << 17
+			return int64(x%uint64(2*n)) - int64(n)
+		}},
+	}
+	slens := []int{11, 12, 13, 16, 17, 24, 31, 32, 33, 49, 50, 51, 64, 100, 128, 200, 256, 300}
+	if thorough {
+		slens = append(slens, 14, 20, 48, 52, 63, 65, 96, 127, 129, 255, 257, 512, 1000)
+	}
+	for li, n := range slens {
+		for pi, p := range pats {
+			seq := make([]rt.Value, n)
+			for i := range seq {
+				seq[i] = rt.IntValue(p.f(i, n))
+			}
+			cs := configs(seq, 1)
+			c := cs[0]
+			if (li+pi)%3 == 1 {
+				c = cs[1]
+			} else if thorough && (li+pi)%3 == 2 {
+				c = cs[3]
+			}
+			e.sortOne(c, "")
+			for _, cmp := range cmpNames {
+				e.sortOne(c, cmp)
+			}
+		}
+	}
 	// random permutations and random multisets, lengths up to 40, and long ones (> 100 elements)
 	lens := []int{7, 8, 9, 11, 12, 13, 16, 17, 23, 31, 32, 33, 40, 64, 101, 150, 257, 300}
 	reps := 3
